@@ -77,6 +77,13 @@ def points2d(rng, xy, n):
     keep = rng.random((k3, 2)) < 0.6
     q = np.where(keep, q, rng.uniform(lo - 0.2 * size, hi + 0.2 * size, size=(k3, 2)))
     out.append(q)
+    if n >= 9:
+        # the axis-parallel lines through every vertex (ties of sign-based winding code), a few points per line
+        m = 6
+        vx = np.repeat(xy[:, 0], m)
+        vy = np.repeat(xy[:, 1], m)
+        out.append(np.column_stack((vx, rng.uniform(lo[1] - 0.1 * size, hi[1] + 0.1 * size, size=len(vx)))))
+        out.append(np.column_stack((rng.uniform(lo[0] - 0.1 * size, hi[0] + 0.1 * size, size=len(vy)), vy)))
     return np.vstack(out)
 
 
